@@ -38,12 +38,13 @@ def cases(tier, seed):
     yield dict(kind='roundtrip3x3')
     yield dict(kind='ids')
     dims = [('ninst', [1, 2]), ('nbeads', [1, 0, 2]), ('nsamples', [2, 1, 3]), ('units', ['mixed', 'all-mef', 'channel', 'none', 'all-rfi']),
-            ('cont', ['int', 'float']), ('plot', [False, True]), ('hist', [False, True]), ('outpath', ['default', 'explicit', 'relative']),
+            ('cont', ['int', 'float']), ('plot', [False, True]), ('hist', [False, True]), ('outpath', ['default', 'explicit', 'relative', 'bare', 'bare-explicit']),
             ('nfl', [2, 3, 4, 11]), ('cluster', ['all', 'one']), ('wbname', ['experiment', 'cells', 'samples.x', 'xls', 'Tables 2020-01']),
             ('ids', ['text', 'numbers', 'dotted']), ('hdr', ['plain', 'blanks']),
             ('paths', ['relative', 'absolute', 'plain-relative']),         # File Path cells: ./FCFiles/x.fcs, /abs/.../FCFiles/x.fcs, FCFiles/x.fcs
             ('mefnone', [False, True]),
-            ('dirname', ['plain', 'braces', 'percent'])]                   # the workbook's directory is called e.g. 'plate{A} run{0} {}' or '100%s done %d'                                    # a manufacturer value given as None (documented: that population is ignored)
+            ('dirname', ['plain', 'braces', 'percent']),
+            ('samplevolt', ['recorded', 'absent'])]                        # sample (and bead) files that do not record the optional detector voltage                   # the workbook's directory is called e.g. 'plate{A} run{0} {}' or '100%s done %d'                                    # a manufacturer value given as None (documented: that population is ignored)
     if tier == 'quick':
         cfgs = [dict(ninst=1, nbeads=1, nsamples=2, units='mixed', cont='int', plot=True, hist=True, outpath='default', nfl=2, cluster='all'),
                 dict(ninst=1, nbeads=1, nsamples=1, units='all-mef', cont='int', plot=True, hist=False, outpath='explicit', nfl=3, cluster='all'),
@@ -63,6 +64,9 @@ def cases(tier, seed):
                 dict(ninst=2, nbeads=2, nsamples=2, units='all-mef', cont='int', plot=False, hist=False, outpath='explicit', nfl=2, cluster='all', paths='plain-relative', mefnone=True),
                 dict(ninst=1, nbeads=1, nsamples=1, units='all-mef', cont='int', plot=True, hist=True, outpath='default', nfl=3, cluster='one', mefnone=True),
                 dict(ninst=1, nbeads=1, nsamples=2, units='mixed', cont='int', plot=True, hist=True, outpath='default', nfl=2, cluster='all', dirname='braces'),
+                dict(ninst=1, nbeads=1, nsamples=2, units='mixed', cont='int', plot=True, hist=True, outpath='bare', nfl=2, cluster='all'),
+                dict(ninst=1, nbeads=0, nsamples=1, units='all-rfi', cont='int', plot=False, hist=False, outpath='bare-explicit', nfl=2, cluster='all'),
+                dict(ninst=1, nbeads=1, nsamples=2, units='all-mef', cont='int', plot=False, hist=True, outpath='default', nfl=2, cluster='all', samplevolt='absent'),
                 dict(ninst=1, nbeads=1, nsamples=1, units='mixed', cont='int', plot=True, hist=False, outpath='explicit', nfl=2, cluster='all', dirname='percent'),
                 dict(ninst=1, nbeads=1, nsamples=2, units='mixed', cont='int', plot=False, hist=True, outpath='default', nfl=3, cluster='all', hdr='blanks')]
     else:
@@ -224,7 +228,8 @@ def build(cfg, d):
                           inst_obj=inst, lot='AJ0%d' % k))
     for k in range(cfg['nsamples']):
         inst = insts[k % len(insts)]
-        wg.write_fcs(os.path.join(d, 'FCFiles', 'cells%d.fcs' % k), wg.cell_layout(inst, stream=70 + k, container=cfg['cont'], n=820 + 90 * k))
+        wg.write_fcs(os.path.join(d, 'FCFiles', 'cells%d.fcs' % k), wg.cell_layout(inst, stream=70 + k, container=cfg['cont'], n=820 + 90 * k,
+                                                                                   no_voltage=cfg.get('samplevolt') == 'absent'))
         mine = [b for b in beads if b['inst'] == inst['id']]
         u = {'mixed': [['MEF', 'RFI'], ['a.u.', None], ['Channel', 'mef']][k % 3], 'all-mef': ['MEF', 'MEF'], 'channel': ['Channel', 'channel'], 'none': [None, None],
              'all-rfi': ['RFI', 'a.u.']}[cfg['units']]
@@ -420,6 +425,14 @@ def run_case(c):
                 if cfg['outpath'] == 'explicit':
                     os.makedirs(os.path.dirname(outp), exist_ok=True)
                 run_in, run_out, cwd0 = wb, (outp if cfg['outpath'] == 'explicit' else None), None
+                if cfg['outpath'] in ('bare', 'bare-explicit'):
+                    # started from inside the workbook's folder: the workbook (and the output) addressed by bare file names
+                    cwd0 = os.getcwd()
+                    os.chdir(d)
+                    run_in = os.path.basename(wb)
+                    if cfg['outpath'] == 'bare-explicit':
+                        run_out = 'results.xlsx'
+                        outp = os.path.join(d, 'results.xlsx')
                 if cfg['outpath'] == 'relative':
                     # both paths relative to the working directory, the workbook in a sub-directory of it, the output somewhere else
                     cwd0 = os.getcwd()
